@@ -125,6 +125,28 @@ def _find_base(max_count, num_reserved, uint_max):
         base = base - _func(base, max_count, num_reserved, uint_max) / slope
     if base < 1.000000001:
         raise ValueError("Calculated base is 1.0. Raise max_count")
+
+    # _func(base) = (base - 1) * (value of the largest counter - max_count), so this asks whether
+    # the largest counter decodes to max_count. It does not when the starting point above sits
+    # on (slope == 0) or next to (huge first step, not back after 200 steps) the stationary
+    # point of _func. Restart to the right of the wanted root, where Newton's method converges
+    # monotonically, and give it the steps it needs.
+    M = float64(max_count) - float64(num_reserved)
+    K = uint_max - num_reserved
+    if abs(_func(base, max_count, num_reserved, uint_max)) > 1e-6 * M * (base - 1.0) and K > 1:
+        base = float64(np.exp(np.log(M) / (K - 1)))
+        for i in range(100000):
+            slope = _funcprime(base, max_count, num_reserved, uint_max)
+            if slope == 0.0:
+                break
+            step = _func(base, max_count, num_reserved, uint_max) / slope
+            base = base - step
+            if abs(step) <= 1e-12 * abs(base):
+                break
+        if base < 1.000000001:
+            raise ValueError("Calculated base is 1.0. Raise max_count")
+        if abs(_func(base, max_count, num_reserved, uint_max)) > 1e-6 * M * (base - 1.0):
+            raise ValueError("Could not find the base for this max_count and num_reserved")
     return base
 
 
